@@ -93,7 +93,26 @@ func mask(w int) *big.Int {
 	return m.Sub(m, big.NewInt(1))
 }
 
+var smallConsts = map[[2]uint64]*Term{}
+
 func BVConst(v *big.Int, w int) *Term {
+	if w <= 64 && v.Sign() >= 0 && v.IsUint64() {
+		u := v.Uint64()
+		if w < 64 {
+			u &= (uint64(1) << uint(w)) - 1
+		}
+		k := [2]uint64{uint64(w), u}
+		if t, ok := smallConsts[k]; ok {
+			return t
+		}
+		t := TP.intern(&Term{Op: "const", S: BV(w), C: new(big.Int).SetUint64(u)})
+		smallConsts[k] = t
+		return t
+	}
+	return bvConstSlow(v, w)
+}
+
+func bvConstSlow(v *big.Int, w int) *Term {
 	c := new(big.Int).And(v, mask(w)) // two's complement wrap for negatives works with And on big.Int
 	if v.Sign() < 0 {
 		m := new(big.Int).Lsh(big.NewInt(1), uint(w))
@@ -101,8 +120,25 @@ func BVConst(v *big.Int, w int) *Term {
 	}
 	return TP.intern(&Term{Op: "const", S: BV(w), C: c})
 }
-func BVConst64(v uint64, w int) *Term { return BVConst(new(big.Int).SetUint64(v), w) }
-func BVConstI(v int64, w int) *Term   { return BVConst(big.NewInt(v), w) }
+func BVConst64(v uint64, w int) *Term {
+	if w <= 64 {
+		u := v
+		if w < 64 {
+			u &= (uint64(1) << uint(w)) - 1
+		}
+		k := [2]uint64{uint64(w), u}
+		if t, ok := smallConsts[k]; ok {
+			return t
+		}
+	}
+	return BVConst(new(big.Int).SetUint64(v), w)
+}
+func BVConstI(v int64, w int) *Term {
+	if v >= 0 {
+		return BVConst64(uint64(v), w)
+	}
+	return BVConst(big.NewInt(v), w)
+}
 func BoolConst(b bool) *Term {
 	c := big.NewInt(0)
 	if b {
